@@ -942,6 +942,35 @@ fn replay_catalognull(_args: &[String]) -> i32 {
     0
 }
 
+/// C06 probe: `enumsemi` -- column definitions whose enumeration the `_Validation` table cannot
+/// represent (a value containing the separator ';', or the empty string as the only value): table
+/// creation must refuse them, or they must reopen unchanged -- not be silently altered.
+fn replay_enumsemi(_args: &[String]) -> i32 {
+    use msi::Column;
+    panic::set_hook(Box::new(|_| {}));
+    for vals in [vec!["a;b", "c"], vec![""], vec!["x", ""], vec!["p", "q"]] {
+        let r = panic::catch_unwind(|| -> Result<(Vec<String>, Vec<String>), String> {
+            let mut p = Package::create(PackageType::Installer, Cursor::new(Vec::new())).map_err(|e| e.to_string())?;
+            p.create_table("T", vec![Column::build("K").primary_key().int16(), Column::build("E").enum_values(&vals).string(20)]).map_err(|e| format!("refused: {e}"))?;
+            let before: Vec<String> = p.get_table("T").unwrap().columns()[1].enum_values().map(|v| v.to_vec()).unwrap_or_default();
+            let cur = p.into_inner().map_err(|e| e.to_string())?;
+            let p2 = Package::open(cur).map_err(|e| e.to_string())?;
+            let after: Vec<String> = p2.get_table("T").unwrap().columns()[1].enum_values().map(|v| v.to_vec()).unwrap_or_default();
+            Ok((before, after))
+        });
+        match r {
+            Err(_) => { println!("REPLAY family=enumsemi enum_values={vals:?} verdict=VIOLATED (panicked)"); return 1; }
+            Ok(Ok((b, a))) if b != a => {
+                println!("REPLAY family=enumsemi enum_values={vals:?} created_as={b:?} reopened_as={a:?} verdict=VIOLATED (accepted by create_table, silently altered by saving and reopening)");
+                return 1;
+            }
+            Ok(res) => println!("REPLAY family=enumsemi enum_values={vals:?} result={:?}", res.map(|(b, _)| b)),
+        }
+    }
+    println!("REPLAY family=enumsemi verdict=ok (refused, or reopened unchanged)");
+    0
+}
+
 fn main() {
     let args: Vec<String> = std::env::args().skip(1).collect();
     if args.is_empty() {
@@ -965,6 +994,7 @@ fn main() {
         "dangling" => replay_dangling(&args[1..]),
         "category" => replay_category(&args[1..]),
         "catalognull" => replay_catalognull(&args[1..]),
+        "enumsemi" => replay_enumsemi(&args[1..]),
         _ => 2,
     };
     std::process::exit(rc);
